@@ -7,11 +7,14 @@ import (
 	"io"
 	"os"
 	"path/filepath"
+	"runtime"
 	"strings"
 	"sync/atomic"
 	"syscall"
+	"time"
 
 	"github.com/goreleaser/nfpm/v2"
+	"github.com/goreleaser/nfpm/v2/files"
 
 	"verifharness/internal/dec"
 	"verifharness/internal/ev"
@@ -455,6 +458,8 @@ func c06(run *ev.Run, tier string) {
 		{"platform-not-linux", []string{"apk", "archlinux"}, func(s *gen.Spec) { s.Platform = "darwin" }},
 		{"archlinux-invalid-name", []string{"archlinux"}, func(s *gen.Spec) { s.Name = "bad name!" }},
 		{"archlinux-name-leading-dash", []string{"archlinux"}, func(s *gen.Spec) { s.Name = "-lead" }},
+		{"script-path-blank", formats, func(s *gen.Spec) { s.Scripts.PostInstall = "  " }},
+		{"script-path-tab", formats, func(s *gen.Spec) { s.Scripts.PreRemove = "\t" }},
 		{"archlinux-name-non-ascii-letter", []string{"archlinux"}, func(s *gen.Spec) { s.Name = "café" }},
 		{"archlinux-name-cyrillic", []string{"archlinux"}, func(s *gen.Spec) { s.Name = "пакет" }},
 		{"archlinux-name-fullwidth-digit", []string{"archlinux"}, func(s *gen.Spec) { s.Name = "pkg１" }},
@@ -510,6 +515,97 @@ func c06(run *ev.Run, tier string) {
 			} else if err == nil {
 				run.Violate("C06/"+f+"/invalid-setting-reported-as-success/"+iv.class, map[string]any{"output_bytes": buf.Len()})
 			}
+		}
+	}
+	// a changelog that was fine for one build and is rewritten into something
+	// unparsable - same length, same modification time - fails the next build
+	{
+		chg := filepath.Join(dir, "turns-bad.yaml")
+		goodDoc := "- semver: \"1.0.0\"\n  date: 2021-03-04T05:06:07Z\n  packager: \"P <p@example.com>\"\n  changes:\n    - note: \"fine\"\n"
+		badDoc := strings.Replace(goodDoc, "- semver: ", "{ semver ]", 1) // same number of bytes
+		stamp := time.Unix(1611111111, 0)
+		for _, f := range []string{"deb", "rpm"} {
+			_ = os.WriteFile(chg, []byte(goodDoc), 0o644)
+			_ = os.Chtimes(chg, stamp, stamp)
+			s := base()
+			s.Changelog = chg
+			run.Case("changelog-turns-unparsable|"+f, true)
+			if err, pn := packageTo(s.YAML(), f, io.Discard, nil); err != nil || pn != "" {
+				run.Violate("C06/"+f+"/clean-build-failed", map[string]any{"case": "changelog", "error": fmt.Sprint(err, pn)})
+				continue
+			}
+			_ = os.WriteFile(chg, []byte(badDoc), 0o644)
+			_ = os.Chtimes(chg, stamp, stamp)
+			if err, pn := packageTo(s.YAML(), f, io.Discard, nil); err == nil && pn == "" {
+				run.Violate("C06/"+f+"/source-fault-reported-as-success/changelog/rewritten-unparsable-same-length-and-mtime", map[string]any{"changelog": badDoc})
+			}
+		}
+	}
+	// a content source that holds more bytes than its stat size says (procfs
+	// reports 0): the build fails, or ships exactly the bytes a read returns
+	if want, err := os.ReadFile("/proc/sys/kernel/ostype"); err == nil && len(want) > 0 {
+		if st, err := os.Stat("/proc/sys/kernel/ostype"); err == nil && st.Size() == 0 {
+			for _, f := range formats {
+				s := base()
+				s.Contents = append(s.Contents, &gen.Content{Src: "/proc/sys/kernel/ostype", Dst: "/opt/loud/ostype"})
+				run.Case("source-longer-than-its-stat-size|"+f, true)
+				var buf bytes.Buffer
+				err, pn := packageTo(s.YAML(), f, &buf, nil)
+				if pn != "" {
+					run.Violate("C06/"+f+"/source-fault-panic/source-longer-than-stat-size", map[string]any{"panic": pn})
+					continue
+				}
+				if err != nil {
+					continue // loud
+				}
+				p := dec.Decode(f, buf.Bytes(), false)
+				e := p.Find("/opt/loud/ostype")
+				if e == nil || !bytes.Equal(e.Data, want) {
+					got := "<entry missing>"
+					if e != nil {
+						got = string(e.Data)
+					}
+					run.Violate("C06/"+f+"/source-silently-truncated/longer-than-stat-size", map[string]any{"shipped": got, "a_read_returns": string(want)})
+				}
+			}
+		}
+	}
+	// a sub-directory of a tree that the building user may not read (the check
+	// runs as root: the thread's file system uid is switched for this call)
+	if os.Geteuid() == 0 {
+		td := filepath.Join(dir, "tree-with-private-dir")
+		_ = os.MkdirAll(filepath.Join(td, "public"), 0o755)
+		_ = os.MkdirAll(filepath.Join(td, "private"), 0o700)
+		_ = os.WriteFile(filepath.Join(td, "public", "a.txt"), []byte("a\n"), 0o644)
+		_ = os.WriteFile(filepath.Join(td, "private", "secret.txt"), []byte("s\n"), 0o600)
+		for d := td; d != "/" && d != "."; d = filepath.Dir(d) {
+			if st, err := os.Stat(d); err == nil {
+				_ = os.Chmod(d, st.Mode().Perm()|0o055)
+			}
+			if d == os.TempDir() {
+				break
+			}
+		}
+		run.Case("tree-with-unreadable-sub-directory", true)
+		done := make(chan error, 1)
+		go func() {
+			runtime.LockOSThread() // never unlocked: the thread dies with the goroutine
+			if _, _, e := syscall.RawSyscall(syscall.SYS_SETFSUID, 65534, 0, 0); e != 0 {
+				done <- fmt.Errorf("setfsuid: %v", e)
+				return
+			}
+			_, err := files.PrepareForPackager(files.Contents{{Source: td, Destination: "/opt/tree", Type: "tree"}}, 0o022, "deb", false, time.Unix(1500000000, 0))
+			_, _, _ = syscall.RawSyscall(syscall.SYS_SETFSUID, 0, 0, 0)
+			if err == nil {
+				done <- nil
+			} else {
+				done <- fmt.Errorf("loud: %w", err)
+			}
+		}()
+		if err := <-done; err == nil {
+			run.Violate("C06/tree/unreadable-sub-directory-skipped-silently", map[string]any{"tree": "public/ (0755), private/ (0700, root)", "prepared_as_uid": 65534})
+		} else if strings.HasPrefix(err.Error(), "setfsuid") {
+			run.Set("unreadable_sub_directory_case", "skipped: "+err.Error())
 		}
 	}
 	// settings that some archive formats cannot encode (owner/group names beyond
